@@ -27,6 +27,8 @@ pub struct Prog {
     pub reserve_pct: u64,
     /// parks return spuriously with probability 1/n (0 = never)
     pub spurious_one_in: u64,
+    /// percentage of calls that are `clear()` (each enters the per-key histories as optional removals)
+    pub clear_pct: u64,
     pub seed: u64,
 }
 
@@ -43,6 +45,7 @@ impl Prog {
             .with("pure_readers", Json::u(self.readers))
             .with("reserve_percent", Json::u(self.reserve_pct))
             .with("spurious_wakeup_one_in", Json::u(self.spurious_one_in))
+            .with("clear_percent", Json::u(self.clear_pct))
             .with("program_seed", Json::u(self.seed))
     }
 }
@@ -60,6 +63,7 @@ pub fn draw(rng: &mut Rng) -> Prog {
         readers: 0,
         reserve_pct: 0,
         spurious_one_in: 0,
+        clear_pct: 0,
         seed: rng.next(),
     };
     match shape {
@@ -81,6 +85,7 @@ pub fn draw(rng: &mut Rng) -> Prog {
             p.prefill = 0;
             p.ops = rng.range(5, 12) as usize;
             p.reserve_pct = *rng.pick(&[0u64, 0, 10]);
+            p.clear_pct = *rng.pick(&[0u64, 6, 12]);
         }
         8 | 9 => {
             // two readers inside a tree bin, writers that need the root lock, parks that may return spuriously
@@ -142,6 +147,22 @@ fn execute(p: &Prog, sched_seed: u64, replay: Option<Vec<u8>>) -> Run {
         let reader = t < pp.readers;
         for _ in 0..pp.ops {
             let key = rng.below(pp.nkeys);
+            if !reader && rng.below(100) < pp.clear_pct {
+                let call = tick();
+                m.clear(&g);
+                let ret = tick();
+                // a clear that moves on to the next table may remove a key, see it re-inserted
+                // and remove it again: up to three optional removals per key; and a removal done
+                // in the successor table shows only once the old bin is forwarded, possibly after
+                // clear has returned (clear is not one of C01's per-key operations): no upper end
+                let _ = ret;
+                for k in 0..pp.nkeys {
+                    for _ in 0..3 {
+                        evs.push(Ev { thread: t as u16, key: k, op: Op::MaybeRemove, call, ret: u64::MAX });
+                    }
+                }
+                continue;
+            }
             if !reader && rng.below(100) < pp.reserve_pct {
                 m.reserve(rng.range(1, 8) as usize, &g);
                 continue;
@@ -266,6 +287,14 @@ pub fn run(ctx: &Ctx, prop: &str) -> Outcome {
         }
         match &r.res.verdict {
             Verdict::Completed => {}
+            // a liveness verdict found while exploring for another property belongs to C11
+            Verdict::Deadlock(d) | Verdict::Livelock(d) if prop != "c11" => {
+                out.add("foreign_findings", 1);
+                if out.inconclusive.len() < 3 {
+                    out.inconclusive.push(format!("schedule {} did not terminate (belongs to C11, this check could not finish its exploration): {d} [{}]", i - 1, p.to_json()));
+                }
+                continue;
+            }
             Verdict::Deadlock(d) => {
                 out.violate("c11/serial/deadlock", format!("{d} [schedule {} of shard {}, {}]", i - 1, ctx.shard, p.to_json()), replay(&r.res));
                 break;
